@@ -32,6 +32,14 @@ CLAIMED = {
          "Exploration: hundreds of thousands (quick) to millions (thorough) of generated recombinations and primitive calls, complete segment coverage for lengths 0..6 over 20000+ seeds, distribution test for lengths 1..4.",
          "Trusted: rand 0.9 StdRng; the coverage check assumes every admissible segment has probability >= 1/(len+1)^2.",
          "DESIGN.md §2 C10"),
+ "C11": (PBT + ": position-tagged genomes through WithRate / WithOneOverLength / all three Umad constructors with a generated random stream; structural parse of the child (slot grammar P0 N0 P1 N1 ...), generator-provenance of new genes, exact degenerate-rate cases",
+         "Exploration: a million (quick) to tens of millions (thorough) generated mutations over four flip genome types and three UMAD genome types, lengths 0..40/120.",
+         "Trusted: the harness's slot-grammar parser; Bitstring UMAD is checked on sizes only (bits cannot carry tags).",
+         "DESIGN.md §2 C11"),
+ "C12": ("seeded statistical property testing: exact-law binomial counts per (operator, configuration) decided by a Chernoff/KL bound (alpha 1e-12 per count) with a confirmation stage; p = 0 and p = 1 decided exactly",
+         "Exploration over the random stream: ~260 configurations x 2e6 (quick) / 4e7 (thorough) seeded trials, ~1500 statistics each compared with its exactly known law; false-alarm probability < 1e-15 per run; detects rate errors >= ~0.003 (quick) at p = 0.5.",
+         "Trusted: rand 0.9 StdRng / Bernoulli; independence of the trials counted together (only disjoint gene pairs are pooled). Not detectable: < vs <=, f32 rounding of a rate, deviations below the stated resolution.",
+         "DESIGN.md §1 Statistical method, §2 C12"),
 }
 NOT_YET = "check not built yet in this revision (work in progress; see DESIGN.md §2 for the planned generated-input check)"
 
